@@ -285,6 +285,7 @@ def run(ctx):
         ctx.notes.append('model driver not built: correspondence skipped, oracle only')
     # end-to-end through tex2txt
     e2e(ctx)
+    file_routes(ctx)
 
 def e2e_case(args):
     latex, repl, multi = args
@@ -316,8 +317,55 @@ def e2e(ctx):
             elif any(not (1 <= x <= len(c[0])) for x in p):
                 ctx.violation('tex2txt: position outside the source after replacement', latex=c[0], rules=c[1], multi=c[2])
 
+def file_route(args):
+    """rules read from a file with tex2txt.read_replacements (as the command-line tools do) against the same rules given as a list:
+    a multi-language document with two parts in the main language, and two documents converted with one Options object"""
+    rules, words = args
+    import tempfile, os
+    m = impl.load()
+    d = tempfile.mkdtemp(prefix='yvr_')
+    try:
+        fn = os.path.join(d, 'repl.txt')
+        open(fn, 'w', encoding='utf-8').write(''.join(l + '\n' for l in rules))
+        doc = ('\\usepackage{babel}\n' + ' '.join(words[:6]) + '.\n\\begin{otherlanguage}{german}\n' + 'Ein langer deutscher Absatz mit vielen Worten. ' * 3
+               + '\n\\end{otherlanguage}\n' + ' '.join(words[6:]) + '.\n')
+        out = {}
+        for route in ('file', 'list'):
+            def call():
+                rp = m.tex2txt.read_replacements(fn, 'utf-8')
+                if route == 'list':
+                    rp = list(rp)
+                o = m.tex2txt.Options(lang='en-GB', pack='*', repl=rp)
+                a = m.tex2txt.tex2txt(doc, o, multi_language=True)
+                b = m.tex2txt.tex2txt(' '.join(words) + '.', o)
+                c = m.tex2txt.tex2txt(' '.join(reversed(words)) + '.', o)
+                return [sorted((k, [(t, list(p)) for t, p in v]) for k, v in a.items()), (b[0], list(b[1])), (c[0], list(c[1]))]
+            r = impl.guarded(call, 30)
+            out[route] = (r['outcome'], r['value'], r.get('exc'))
+        return out
+    finally:
+        import shutil; shutil.rmtree(d, ignore_errors=True)
+
+def file_routes(ctx):
+    rng = ctx.rng
+    cases = []
+    for _ in range(ctx.scale(40, 600)):
+        words = [rng.choice(['so', 'dass', 'teh', 'alpha', 'beta', 'gamma', 'Word', 'z.', 'B.', 'and', 'the', 'end']) for _ in range(14)]
+        rules = [rng.choice(['so dass & sodass', 'teh & the', 'alpha beta & ab', 'z. B. & zum Beispiel', '# comment', 'gamma & ', 'the end & finis'])
+                 for _ in range(rng.randint(1, 4))]
+        cases.append((rules, words))
+    for c, r in zip(cases, ctx.pmap(file_route, cases)):
+        ctx.case(('file-route', tuple(c[0]), tuple(c[1]))); ctx.count('file_route_' + r['file'][0])
+        if r['file'] != r['list']:
+            ctx.violation('rules read from a file with read_replacements give %r, the same rules as a list give %r' % (
+                str(r['file'])[:200], str(r['list'])[:200]), rules=c[0], words=c[1], kind='file-route')
+
 def replay(data):
     v = data['violation']
+    if v.get('kind') == 'file-route':
+        r = file_route((v['rules'], v['words']))
+        print('ok' if r['file'] == r['list'] else 'routes differ')
+        return r['file'] == r['list']
     if 'text' in v:
         case = ('repl', v['text'], v['positions'], v['rules'])
         r = one_case(case)
